@@ -4,8 +4,8 @@
     property text; the model (Model/Config.v) is the code at /repo HEAD
     (load_config, StdioClient's spawn, get_default_environment, the CLI's
     test_server, run_command).  [answers] (does the configured server program
-    answer initialize?) and [host] (the host's own environment) are universally
-    quantified: the world, not the library. *)
+    answer initialize?) and [denv] (what get_default_environment() returns on
+    this host) are universally quantified: the world, not the property. *)
 From Verif.Base Require Import Prelude Json Decimal HostTypes.
 From Verif.Spec Require Import C20.
 From Verif.Model Require Import Config.
@@ -33,17 +33,17 @@ Print Assumptions C20_loader_meets_spec.
     started, exactly as configured, it receives initialize, and the test
     succeeds iff the server answers.  For every world, host environment,
     source and name. *)
-Theorem C20_cli_launches_configured : forall answers host src name,
-  Spec_run answers (default_env host) src [name] (cli answers host src name).
+Theorem C20_cli_launches_configured : forall answers denv src name,
+  Spec_run answers denv src [name] (cli answers denv src name).
 Proof. exact cli_spec. Qed.
 Print Assumptions C20_cli_launches_configured.
 
-Theorem C20_cli_exact : forall answers host cfg name sv,
+Theorem C20_cli_exact : forall answers denv cfg name sv,
   valid_config cfg = true -> server_of cfg name = Some sv ->
-  exists l, cli answers host (SrcJson cfg) name
+  exists l, cli answers denv (SrcJson cfg) name
             = RunObs [Proc l true] (if answers (cfg_command sv) then 1 else 0)
             /\ l_argv l = cfg_command sv :: cfg_args sv
-            /\ env_equiv (l_env l) (effective_env (default_env host) (cfg_env sv)).
+            /\ env_equiv (l_env l) (effective_env denv (cfg_env sv)).
 Proof. exact cli_exact. Qed.
 Print Assumptions C20_cli_exact.
 
@@ -51,8 +51,8 @@ Print Assumptions C20_cli_exact.
     names included), exactly the configured ones are started, in order, each
     exactly as configured, each receives initialize; the command function gets
     one connection per server that answered. *)
-Theorem C20_runner_launches_configured : forall answers host src names,
-  Spec_run answers (default_env host) src names (runner answers host src names).
+Theorem C20_runner_launches_configured : forall answers denv src names,
+  Spec_run answers denv src names (runner answers denv src names).
 Proof. exact runner_spec. Qed.
 Print Assumptions C20_runner_launches_configured.
 
@@ -66,10 +66,10 @@ Proof. exact errors_typed. Qed.
 Print Assumptions C20_errors_typed.
 
 (** ... and no entry point starts anything then. *)
-Theorem C20_errors_launch_nothing : forall answers host src names,
+Theorem C20_errors_launch_nothing : forall answers denv src names,
   src_valid src = true -> requested src names = [] ->
-  runner answers host src names = RunObs [] 0
-  /\ forall name, In name names -> cli answers host src name = RunObs [] 0.
+  runner answers denv src names = RunObs [] 0
+  /\ forall name, In name names -> cli answers denv src name = RunObs [] 0.
 Proof. exact errors_launch_nothing. Qed.
 Print Assumptions C20_errors_launch_nothing.
 
@@ -110,10 +110,10 @@ Example C20_nonvacuous :
   valid_config ex_cfg = true
   /\ load_obs_of (load_config (SrcJson ex_cfg) [97])
      = Loaded (Params [47;120;32;121] [[112;32;113]; []] (Some [([75], [118])])) (Some (Dec 25 (-1)))
-  /\ runner ex_answers ex_host (SrcJson ex_cfg) [[98]; [110;111;112;101]; [97]; [98]]
+  /\ runner ex_answers (default_env ex_host) (SrcJson ex_cfg) [[98]; [110;111;112;101]; [97]; [98]]
      = RunObs [ Proc (Launch [[47;119]] [([80;65;84;72], [47;98;105;110])]) true;
                 Proc (Launch [[47;120;32;121]; [112;32;113]; []] [([75], [118])]) true;
                 Proc (Launch [[47;119]] [([80;65;84;72], [47;98;105;110])]) true ] 1
-  /\ cli ex_answers ex_host (SrcJson ex_cfg) [110;111;112;101] = RunObs [] 0
+  /\ cli ex_answers (default_env ex_host) (SrcJson ex_cfg) [110;111;112;101] = RunObs [] 0
   /\ load_config (SrcJson ex_cfg) [110;111;112;101] = Err EValue.
 Proof. repeat split; vm_compute; reflexivity. Qed.
